@@ -1,5 +1,6 @@
 import TartModel.Proofs.TTreeLemmas
 import TartModel.Proofs.CollectLemmas
+import TartModel.Impl.ExecT
 /-
   C09 — mutation root fields run serially, in document order.
   The mutation root is built with `seqT` (await one field, sub-selection included, then build the
@@ -52,5 +53,39 @@ theorem roots_in_document_order (n : Nat) (ctx : Ctx) (tn : String) (parent : Py
 theorem root_type_by_operation (S : Schema) :
     rootTypeName S .query = some S.queryType ∧ rootTypeName S .mutation = S.mutationType ∧
     rootTypeName S .subscription = S.subscriptionType := ⟨rfl, rfl, rfl⟩
+
+/-- what makes the root fields run serially is the OPERATION being a mutation, never the type the operation starts
+    from: also under `schema { query: Q mutation: Q }` (one object type for both) the root task of a mutation is the
+    serial one, and that of a query over the very same type is not -/
+theorem serial_by_operation_kind (fuel : Nat) (S : Schema) (o : Oracle) (env : Env) (doc : Document)
+    (opName : Option String) (rawVars : List (String × PyVal)) (root : PyVal) (op : Operation) (ctx : Ctx) (t : TTree)
+    (hsel : selectOperation doc opName = some op)
+    (h : requestTree fuel S o env doc opName rawVars root = .ok (ctx, t)) :
+    ∃ rt collected, rootTypeName S op.kind = some rt ∧
+      t = runT fuel ctx (.fields rt root [] collected (op.kind == .mutation)) := by
+  unfold requestTree at h
+  rw [hsel] at h
+  simp only at h
+  split at h
+  · cases h
+  · split at h
+    · cases h
+    · rename_i rt hrt
+      cases h
+      exact ⟨rt, _, hrt, rfl⟩
+
+theorem shared_root_type_mutation_is_serial (fuel : Nat) (S : Schema) (o : Oracle) (env : Env) (doc : Document)
+    (opName : Option String) (rawVars : List (String × PyVal)) (root : PyVal) (op : Operation) (ctx : Ctx) (t : TTree)
+    (hsel : selectOperation doc opName = some op) (hk : op.kind = .mutation)
+    (hshared : S.mutationType = some S.queryType)
+    (h : requestTree fuel S o env doc opName rawVars root = .ok (ctx, t)) :
+    ∃ collected, t = runT fuel ctx (.fields S.queryType root [] collected true) := by
+  obtain ⟨rt, coll, hrt, ht⟩ := serial_by_operation_kind fuel S o env doc opName rawVars root op ctx t hsel h
+  rw [hk] at hrt ht
+  have : rt = S.queryType := by
+    have h2 : rootTypeName S .mutation = S.mutationType := rfl
+    rw [h2, hshared] at hrt; cases hrt; rfl
+  subst this
+  exact ⟨coll, by simpa using ht⟩
 
 end Tart.C09
